@@ -3,12 +3,16 @@
    suffixes, empty strings, boundary-shifted splits); one JSON line per descriptor with its identity and
    dimension streams; the structural theorems are checked on a sub-pool by ASSUME-style invariants. *)
 EXTENDS Desc, Json, TLC
-CONSTANTS NameSet, HelpSet, LN, ValSet, MaxCL, MaxVL, TheoremOn
+CONSTANTS NameSet, HelpSet, LN, ValSet, MaxCL, MaxVL, TheoremOn,
+          PartN, PartK     \* the pool is enumerated in PartN slices (initial states are generated on one thread; the thorough tier
+                           \* runs the slices as parallel TLC processes); PartN = 1, PartK = 0: the whole pool at once
 CLSet == UNION {[S -> ValSet] : S \in {T \in SUBSET LN : Cardinality(T) <= MaxCL}}
 VLSet == {s \in UNION {[1..k -> LN] : k \in 0..MaxVL} : \A i, j \in DOMAIN s : i # j => s[i] # s[j]}
 Pool == [name : NameSet, help : HelpSet, cl : CLSet, vl : VLSet]
 VARIABLE d
-Init == d \in Pool
+Slice(x) == (Len(x.name) + 2 * Len(x.help) + 3 * Len(x.vl) + 5 * Cardinality(DOMAIN x.cl)
+             + (IF x.vl # <<>> THEN 7 * Len(x.vl[1]) ELSE 0)) % PartN
+Init == d \in Pool /\ Slice(d) = PartK
 Next == UNCHANGED d
 Spec == Init /\ [][Next]_d
 \* const labels as a sequence of pairs in name order (ToJson cannot print functions with sequence domains)
@@ -17,5 +21,7 @@ Emit == PrintT(<<"CASE", ToJson([name |-> d.name, help |-> d.help, cl |-> CLSeq(
                                   ids |-> IdStream(d), dims |-> DimStream(d)])>>)
 \* theorem on the sub-pool with at most one constant label value set drawn from TheoremOn
 Sub == {x \in Pool : x.help = CHOOSE h \in HelpSet : TRUE}
-Structural == (d = CHOOSE x \in Pool : TRUE) => (IdentityIsStructural(TheoremOn) /\ DimensionIsStructural(TheoremOn))
+\* (a constant definition of its own: TLC evaluates it once instead of materialising the pool in every state)
+FirstOfPool == CHOOSE x \in Pool : TRUE
+Structural == (d = FirstOfPool) => (IdentityIsStructural(TheoremOn) /\ DimensionIsStructural(TheoremOn))
 =============================================================================
